@@ -238,7 +238,7 @@ def main(chk: core.Check, replay: typing.Optional[str] = None) -> int:
         cases = gen_cases(chk.rng, n_cases)
 
     # 1. proof obligations against the regenerated translation
-    res = core.coq_check('C15', ['uni', 'linepp', 'pin_linebuf'])
+    res = core.coq_check('C15', ['uni', 'linepp', 'uniq', 'pin_linebuf'])
     chk.proof_coverage(res, [
         'T2 translator (tools/translators/pyfun_tr.py, regex_tr.py) for TrimTrailingWhitespace.__call__, LimitEmptyLines.__init__/__call__ and the two compiled patterns',
         'T1 table of Python \\s code points taken from the running interpreter',
@@ -262,6 +262,23 @@ def main(chk: core.Check, replay: typing.Optional[str] = None) -> int:
             copy_cases.append({'copy_text': gen_text(chk.rng, chk.rng.choice([0, 1, 2, 3, 5, 8, 13, 21, 40])), 'pps': chk.rng.choice(PIPELINES)})
         copy_cases += [{'copy_text': t, 'pps': p} for t in ['a\nbc', 'bc', 'a \r\nb  ', '\n\n\nx', 'x\r', '\r'] for p in ([['trim']], [['limit', 1]])]
     copy_impl = run_impl(copy_cases) if copy_cases else []
+
+    # several files through ONE generator object (real _generate_code): every file must be processed with fresh line
+    # processors whatever came before (files ending/starting with blank lines, limits 0..3)
+    file_cases = []
+    if not replay:
+        blank_edges = ['', '\n', '\n\n', '\n\n\n', ' \n\n']
+        for _ in range(120 if chk.tier == 'quick' else 2500):
+            files = []
+            for _k in range(chk.rng.randrange(2, 5)):
+                text = chk.rng.choice(blank_edges) + gen_text(chk.rng, chk.rng.choice([0, 2, 5, 9])) + chk.rng.choice(blank_edges)
+                chunks = gen_cuts(chk.rng, text) if text else ['']
+                files.append(chunks)
+            file_cases.append({'files': files, 'pps': chk.rng.choice(PIPELINES)})
+        file_cases.append({'files': [['a\n\n'], ['\nb']], 'pps': [['limit', 1]]})
+    file_impl = run_impl(file_cases) if file_cases else []
+    file_bad = [i for i, c in enumerate(file_cases)
+                if file_impl[i].get('ok') != [oracle(f, c['pps']) for f in c['files']]]
 
     def copy_oracle(c):
         t = c['copy_text'].replace('\r\n', '\n').replace('\r', '\n')
@@ -326,7 +343,14 @@ def main(chk: core.Check, replay: typing.Optional[str] = None) -> int:
     chk.coverage['distribution']['long_line_cases'] = len(long_cases)
     chk.coverage['distribution']['copy_header_cases'] = len(copy_cases)
     chk.coverage['evaluations'] += len(long_cases) + len(copy_cases)
-    if copy_bad and not bad_oracle and not long_bad:
+    chk.coverage['distribution']['multi_file_cases'] = len(file_cases)
+    chk.coverage['evaluations'] += len(file_cases)
+    if file_bad and not bad_oracle and not long_bad:
+        c = file_cases[file_bad[0]]
+        chk.violation({'case': c, 'expected_by_property': [oracle(f, c['pps']) for f in c['files']], 'implementation': file_impl[file_bad[0]],
+                       'what': 'a file written by a generator after other files differs from line-by-line application with fresh processors '
+                               '(line post-processor state leaks between files)', 'broken': broken, 'n_failing': len(file_bad)}, found_input=True)
+    elif copy_bad and not bad_oracle and not long_bad:
         c = copy_cases[copy_bad[0]]
         chk.violation({'case': c, 'expected_by_property': copy_oracle(c), 'implementation': copy_impl[copy_bad[0]],
                        'what': '_copy_header_using_line_pps output differs from line-by-line application to the file text',
